@@ -82,7 +82,7 @@ def gen_case(rng):
     return scn, case
 
 
-def run_case(rep, scn, case, sb, tag, rows):
+def run_case(rep, scn, case, sb, tag, rows, lrows=None):
     from .c03 import make_gate
     rng = random.Random(case["seed"])
     base = sb / tag
@@ -100,15 +100,19 @@ def run_case(rep, scn, case, sb, tag, rows):
             for sc in pl.values():
                 sc["rest"] = "good"
 
+    lt = R.LockTrace()
+
     def prepare(apt):
         n = apt._config.nthreads
         apt._semaphore = make_tracing_semaphore("R", log)(n)
-        apt._download_semaphore = make_tracing_semaphore("D", log)(n)
+        lt.prepare(apt, base=make_tracing_semaphore("D", log))
 
     def on_request(url, path):
         log.append(("S", url, id(asyncio.current_task()), path))
     res = P.run_tool(scn, base, faults=R.realise_plan(plan, files), gate=make_gate(case["seed"]) if case["gate"] else None,
-                     upstream_files=files, prepare=prepare, on_request=on_request)
+                     upstream_files=files, prepare=prepare, on_request=on_request, on_downloader=lt.on_downloader)
+    if lrows is not None:
+        lrows.append(({"scenario": {"repos": scn.repos, "nthreads": scn.nthreads}, "case": case},) + tuple(lt.row(scn.nthreads)))
     n = scn.nthreads
     urls = [r["url"] for r in scn.repos]
     # rebuild the abstract trace
@@ -230,17 +234,19 @@ def run(rep: C.Report):
     n = 60 if rep.tier == "quick" else 2500
     sb = P.sandbox("vsb_c14_")
     found = False
-    rows = []
+    rows, lrows = [], []
     try:
         for i in range(n):
             scn, case = gen_case(rng)
-            found |= run_case(rep, scn, case, sb, f"r{i}", rows)
+            found |= run_case(rep, scn, case, sb, f"r{i}", rows, lrows)
     finally:
         shutil.rmtree(sb, ignore_errors=True)
     header = HEADER + COQ_DEFS
     mism, errors = C.run_mismatch_shards(rep.prop, "sched", header, "m_sched", "eq_sched", [(a, b) for _, a, b in rows], shard=8)
     C.tie_verdict(rep, "sched", mism, errors, [c for c, _, _ in rows], found, header=header, fn="m_sched",
                   coq_inputs=[a for _, a, _ in rows])
+    from .c15 import locks_tie
+    found |= locks_tie(rep, lrows, found)
     C.proof_verdict(rep, found)
 
 
